@@ -83,5 +83,25 @@ def handle (args : List Val) : Option Val := do
     pure (.list [encRec r, b2i (spec r), is])
   | _ => none
 
+/-- `(train kind script horizon (pmap…) iterations implRecs)`: `DebugTrainer.train` -/
+def handleTrain (args : List Val) : Option Val := do
+  match args with
+  | [k, sc, hz, pm, its, impl] =>
+    let k ← kind? k
+    let sc ← script? sc
+    let hz ← hz.nat?
+    let pm ← pm.nats?
+    let its ← its.nat?
+    let S := stubSim sc
+    let pmap : Aid → Nat := fun a => pm.getD a 0
+    let P : Policies Int (List Int) := { pmap := pmap, act := polAct }
+    let rs := trainEpisodes S k P hz its (mgrInit ({} : StubSt) false [])
+    let spec := fun (xs : List R) => xs.length == its && xs.all (fun x => specC16 sc.n hz pmap x)
+    let is : Val := match (← impl.list?).mapM rec? with
+      | some irs => b2i (spec irs)
+      | none => .int (-2)
+    pure (.list [.list (rs.map encRec), b2i (spec rs), is])
+  | _ => none
+
 end TrainerDriver
 end Abmarl
